@@ -26,8 +26,8 @@ HERE = os.path.dirname(os.path.dirname(os.path.dirname(os.path.abspath(__file__)
 
 def bounds(tier, seed):
     q = tier == 'quick'
-    return {'history_length': 2 if q else 3, 'calls': len(pool()), 'stream_documents': 3, 'stream_pool': len(DOCS),
-            'depth3_slice': 'thorough: all; quick: none'}
+    return {'history_length': '2 everywhere; 3 for first calls with index % 8 == seed % 8' if q else 3, 'calls': len(pool()), 'stream_documents': 3, 'stream_pool': len(DOCS),
+            }
 
 
 # ---------------------------------------------------------------- canonical results
@@ -391,7 +391,8 @@ def plan(tier, seed):
     for p_ in parts:
         base.update(p_)
     jobs = [('baseline', k, 16) for k in range(16)]
-    jobs += [('hist', i, 2 if q else 3, base) for i in range(n)]
+    # quick: all histories of length 2, and length 3 for the first calls with index % 8 == seed % 8
+    jobs += [('hist', i, (3 if (not q or i % 8 == seed % 8) else 2), base) for i in range(n)]
     jobs += [('streams', k, 16) for k in range(16)]
     return jobs
 
